@@ -361,6 +361,9 @@ class FitEngine(Engine):
 
     SWEEP_RUNS = 8
 
+    def selftest_indices(self, n):
+        return [0, 4] + list(range(self.SWEEP_RUNS, self.SWEEP_RUNS + n - 2))
+
     def generate(self, rng, tier, i):
         import random
 
